@@ -28,10 +28,29 @@ def run_generators(log=print, only=None):
     for prop, gen, args in GENERATORS:
         if only and prop != only:
             continue
-        r = subprocess.run([os.path.join(VERIF, "gen", gen)] + [a.format(**sub) for a in args], capture_output=True, text=True)
+        # outputs are written to private temporary files and moved into place atomically, and only when the content changed:
+        # two checks that share a generator (C16 / C19) may run at the same time without ever seeing a half-written slice
+        real = [a.format(**sub) for a in args]
+        outs = {a: a + ".tmp%d" % os.getpid() for a in real if a.startswith(sub["H"] + os.sep)}
+        r = subprocess.run([os.path.join(VERIF, "gen", gen)] + [outs.get(a, a) for a in real], capture_output=True, text=True)
         if r.returncode != 0:
             log("slice generator %s failed: %s" % (gen, r.stderr.strip()))
             failed.add(prop)
+            for t in outs.values():
+                if os.path.exists(t):
+                    os.remove(t)
+            continue
+        for final, tmp in outs.items():
+            if not os.path.exists(tmp):
+                continue
+            try:
+                same = os.path.exists(final) and open(final).read() == open(tmp).read()
+            except OSError:
+                same = False
+            if same:
+                os.remove(tmp)
+            else:
+                os.replace(tmp, final)
     return failed
 
 
